@@ -983,7 +983,14 @@ def _gen_package(rnd, n_parts):
         return "./" + r if style == "dot" and not r.startswith("..") else r
 
     def rels_xml(u):
-        body = "".join('<Relationship Id="rId%d" Type="http://t/%d" Target="%s"%s/>' % (i + 1, i % 3, (t if ext else ref(u, t)), ' TargetMode="External"' if ext else "")
+        # relationship ids as other producers write them: rIdN, non-contiguous, zero-padded, with suffixes, without the prefix
+        ids = ["rId%d" % (i + 1) for i in range(len(edges[u]))]
+        style = rnd.randrange(4)
+        if style == 1:
+            ids = ["rId%d" % (3 * i + 2) for i in range(len(ids))]
+        elif style == 2:
+            ids = [rnd.choice(["rIdImage%d", "rId%da", "R%d", "rId0%d", "id%d"]) % (i + 1) for i in range(len(ids))]
+        body = "".join('<Relationship Id="%s" Type="http://t/%d" Target="%s"%s/>' % (ids[i], i % 3, (t if ext else ref(u, t)), ' TargetMode="External"' if ext else "")
                        for i, (t, ext) in enumerate(edges[u]))
         return ('<?xml version="1.0" encoding="UTF-8" standalone="yes"?>\n<Relationships xmlns="http://schemas.openxmlformats.org/package/2006/relationships">%s</Relationships>' % body).encode()
 
